@@ -107,6 +107,46 @@ class TlcResult:
         self.coverage = {}
 
 
+def _logical_lines(fi):
+    """TLC pretty-prints long values over several lines; re-join a printed tuple into one line"""
+    buf = None
+    depth = 0
+    for raw in fi:
+        line = raw.rstrip("\n")
+        if buf is None:
+            if line.startswith("<<") and not line.startswith('<<"VEC"'):
+                d = _depth(line)
+                if d > 0:
+                    buf, depth = line, d
+                    continue
+            yield line
+        else:
+            buf += " " + line.strip()
+            depth += _depth(line)
+            if depth <= 0:
+                yield buf
+                buf = None
+    if buf is not None:
+        yield buf
+
+
+def _depth(line):
+    # brackets inside string literals are rare in our prints (texts are 1-char sequences); count outside quotes
+    d = 0
+    inq = False
+    prev = ""
+    for ch in line:
+        if ch == '"' and prev != "\\":
+            inq = not inq
+        elif not inq:
+            if ch in "<{[(":
+                d += 1 if ch != "<" else 0.5
+            elif ch in ">}])":
+                d -= 1 if ch != ">" else 0.5
+        prev = ch
+    return d
+
+
 _TLA_STR = re.compile(r'^<<"VEC", (".*")>>$')
 
 
@@ -140,8 +180,7 @@ def run_tlc(ctx, module, cfg, workers=4, timeout=900, env=None, simulate=None, d
     res.timed_out = p.returncode == 124
     tail = []
     with open(out_path, errors="replace") as fi:
-        for line in fi:
-            line = line.rstrip("\n")
+        for line in _logical_lines(fi):
             if line.startswith('<<"VEC", '):
                 if keep_vec:
                     m = _TLA_STR.match(line)
